@@ -7,7 +7,7 @@ Open Scope N_scope.
 Definition m0 := mkMeta 0 0 0 0.
 Definition u8 := TInt false 8.
 Definition u16 := TInt false 16.
-Definition lit8 (n : N) := Ex (ENumU n) m0 u8.
+Definition lit8 (n : N) := Ex (ENumU n 8) m0 u8.
 Definition prog_of (body : list stmt) : program := mkProgram [] [] [mkFn 9 [(0, u8)] u8 body] [] 9.
 Definition ret0 := St (SExpr (Ex (EId 0) m0 u8)) m0.
 
@@ -18,7 +18,7 @@ Print Assumptions C17_wt_accepts_well_typed.
 
 Theorem C17_wt_rejects :
   (* operand types disagree *)
-  wt_program (prog_of [St (SLet (Pat (PId 1) m0 u8) (Ex (EOp OAdd (lit8 1) (Ex (ENumU 1) m0 u16)) m0 u8)) m0; ret0]) = false /\
+  wt_program (prog_of [St (SLet (Pat (PId 1) m0 u8) (Ex (EOp OAdd (lit8 1) (Ex (ENumU 1 8) m0 u16)) m0 u8)) m0; ret0]) = false /\
   (* non-Boolean condition *)
   wt_program (prog_of [St (SExpr (Ex (EIf (lit8 7) (lit8 1) (lit8 2)) m0 u8)) m0]) = false /\
   (* unknown identifier *)
